@@ -298,8 +298,11 @@ impl Engine for C11 {
             "every session of <= {} didOpen/didChange messages over two documents x 6 texts each (clean; faulty, twice: the same fault at the same byte offset on two different lines; includes the other document, twice: the include statement at two different places; includes a faulty file that is only on disk), \
              the first message to a document being didOpen and later ones didChange, driven through the real server one message at a time to quiescence; after the last message of every session \
              (every session is a prefix of longer ones) the latest publication per URI must equal the diagnostics of the final state and be empty for URIs outside the final workspace; versions per URI never decrease. \
+             In addition every schedule (controlled scheduler and lock model of C08, hook H3) of every scenario didOpen ; n1 [; n2 [; n3]] of <= {} open/change notifications \
+             (change of the root, resend, a second document, an unseen third): per file the versions of the publications, in the order they are sent, never decrease. \
              states = distinct (buffers, root) configurations; transitions = messages; non-trivial = sessions of >= 2 messages.",
-            tier.pick(3, 5)
+            tier.pick(3, 5),
+            tier.pick(2, 3)
         )
     }
     fn assumptions(&self) -> Vec<String> {
@@ -310,14 +313,38 @@ impl Engine for C11 {
     }
     fn explore(&self, tier: Tier, ctx: &mut Ctx) {
         explore(&c11_scenario(), tier.pick(3, 5), &[], ctx);
+        // the order of publications under every schedule: scenarios of <= 2 (t: 3) open/change notifications after
+        // the first open, on the controlled scheduler of C08 (hook H3); per file the published versions never decrease
+        let letters = crate::c08::notification_letters();
+        let dir = session_dir("C11s", ctx.shard);
+        let max_len = tier.pick(2, 3);
+        let total = tgv_core::words::count_upto(letters.len() as u64, max_len);
+        let mut word = Vec::new();
+        for idx in 1..total {
+            if !ctx.is_mine(idx) {
+                continue;
+            }
+            tgv_core::words::decode(idx, letters.len() as u64, max_len, &mut word);
+            let scenario: Vec<usize> = word.iter().map(|&i| letters[i]).collect();
+            if !crate::c08::explore_publication_order(&scenario, &dir, ctx) {
+                break;
+            }
+        }
+        let _ = std::fs::remove_dir_all(&dir);
     }
     fn eval_case(&self, case: &Value) -> Vec<Failure> {
+        if case.get("scenario").is_some() {
+            return crate::c08::eval_publication_order(case);
+        }
         let dir = session_dir("C11", 99);
         let r = eval(&c11_scenario(), &history_of(case), &dir, false);
         let _ = std::fs::remove_dir_all(&dir);
         r
     }
     fn shrink(&self, case: &Value, _clause: &str) -> Vec<Value> {
+        if case.get("scenario").is_some() {
+            return crate::c08::shrink_scenario(case);
+        }
         let sc = c11_scenario();
         tgv_core::shrink::deletions(&history_of(case)).into_iter().map(|h| json!({ "history": h, "witness": show(&h, &sc) })).collect()
     }
